@@ -131,7 +131,7 @@ PROPS = {
     "C11": {
         "engines": [{"name": "fstrace"}],
         "level": "exploration",
-        "technique": "simulated efivarfs device: recording afero.Fs + firmware model; oracle over the recorded operation trace, complete grid of predefined variables x stored masks x APIs x directories plus seeded generated definitions and legal short-read schedules",
+        "technique": "simulated efivarfs device: recording afero.Fs + firmware model; oracle over the recorded operation trace, complete grid of predefined variables x stored masks x APIs x directories plus seeded generated definitions, legal short-read schedules, seeded interleaving of 2-3 callers at the filesystem calls, and foreign stores between reads (some leaving the modification time unchanged)",
         "design_ref": "DESIGN.md section 3 (C11), 2.3 (simfs, fwmodel)",
         "level_text": ("The sequence of filesystem operations the library issues is observed at the only place where one write and two writes differ -- the device boundary -- "
                        "for every predefined variable on both APIs (grid enumerated completely) and for seeded name/GUID/mask/value/stored-mask combinations with "
